@@ -6,7 +6,8 @@ From Sekai Require Import Base.Prelude Base.Dec Model.Basket.
 
 (* what is observed after a successful operation: the stored basket record, the bank supply of
    the basket denomination, balances [account][denomination] (account 0 = basket module) *)
-Record post := mkP { p_bk : basket; p_supply : Z; p_bals : list (list Z) }.
+(* [p_sibs]: the stored records of the other baskets (ids 2, 3, ...) with the bank supply of their tokens *)
+Record post := mkP { p_bk : basket; p_supply : Z; p_bals : list (list Z); p_sibs : list (basket * Z) }.
 (* a history: initial observation, then (operation, status 0 ok / 1 rejected / 2 panic, observation) *)
 Inductive c11_case : Type := C11Hist (init : post) (steps : list (op * Z * option post)).
 
@@ -34,7 +35,8 @@ Fixpoint row_matches (f : Z -> Z) (d : Z) (row : list Z) : bool :=
 Fixpoint bals_match (f : Z -> Z -> Z) (a : Z) (rows : list (list Z)) : bool :=
   match rows with [] => true | row :: r => row_matches (f a) 0 row && bals_match f (a + 1) r end.
 Definition state_matches (s : state) (p : post) : bool :=
-  basket_eqb (s_bk s) (p_bk p) && (s_supply s =? p_supply p) && bals_match (s_bal s) 0 (p_bals p).
+  basket_eqb (s_bk s) (p_bk p) && (s_supply s =? p_supply p) && bals_match (s_bal s) 0 (p_bals p)
+  && list_eqb basket_eqb (s_sibs s) (map fst (p_sibs p)).
 
 (* ---------------------------------------------------------------- model vs. real code *)
 Fixpoint steps_match (v : variant) (s : state) (steps : list (op * Z * option post)) : bool :=
@@ -48,7 +50,7 @@ Fixpoint steps_match (v : variant) (s : state) (steps : list (op * Z * option po
       | _, _ => false
       end
   end.
-Definition state_of_post (p : post) : state := init_state (p_bk p) (bal_of_lists (p_bals p)) (p_supply p).
+Definition state_of_post (p : post) : state := init_state (p_bk p) (bal_of_lists (p_bals p)) (p_supply p) (map fst (p_sibs p)).
 Definition case_matches (v : variant) (c : c11_case) : bool :=
   match c with C11Hist init steps => steps_match v (state_of_post init) steps end.
 
@@ -90,13 +92,19 @@ Definition max_weight (b : basket) : Z := fold_right Z.max 0 (map t_weight (b_to
 Definition denoms_of (p : post) : list Z :=
   match p_bals p with row :: _ => map Z.of_nat (seq 0 (List.length row)) | [] => [] end.
 
-(* "the token supply equals the recorded amount, the basket module holds the recorded reserves
-   and surplus" *)
+(* "for every basket the token supply equals the recorded amount, the basket module holds the
+   recorded reserves and surplus": ALL baskets together -- per denomination the module account holds
+   at least the sum over the baskets of recorded reserves + recorded surplus (it may hold more: an
+   edit may drop a token whose reserve then stays unrecorded) *)
+Definition all_baskets (p : post) : list basket := p_bk p :: map fst (p_sibs p).
+Definition recorded_total (p : post) (d : Z) : Z :=
+  zsum (map (fun b => rec_reserve b d + rec_surplus b d) (all_baskets p)).
 Definition books (p : post) : bool :=
   (p_supply p =? b_amount (p_bk p))
-  && forallb (fun d => rec_reserve (p_bk p) d + rec_surplus (p_bk p) d <=? bal_at p MODULE d) (denoms_of p)
-  && forallb (fun t => existsb (Z.eqb (t_denom t)) (denoms_of p)) (b_tokens (p_bk p))
-  && forallb (fun c => existsb (Z.eqb (fst c)) (denoms_of p)) (b_surplus (p_bk p)).
+  && forallb (fun bs => snd bs =? b_amount (fst bs)) (p_sibs p)
+  && forallb (fun d => recorded_total p d <=? bal_at p MODULE d) (denoms_of p)
+  && forallb (fun b => forallb (fun t => existsb (Z.eqb (t_denom t)) (denoms_of p)) (b_tokens b)
+                       && forallb (fun c => existsb (Z.eqb (fst c)) (denoms_of p)) (b_surplus b)) (all_baskets p).
 
 (* token caps: weight_i * reserve_i <= cap * total (up to the 10^-18 rounding of Dec.Mul) *)
 Definition caps_ok (b : basket) : bool :=
@@ -116,6 +124,7 @@ Definition kind_of (o : op) : string :=
   | OMint _ _ _ => "mint" | OBurn _ _ _ _ => "burn" | OSwap _ _ _ => "swap" | OEdit _ => "edit"
   | ODisable _ _ => "disable" | OSlashHook => "slash_hook" | ORaiseHook => "raise_hook"
   | OSlashW _ _ => "slash_weights" | OEndBlock _ => "end_block" | OUpsertHook _ => "upsert_hook"
+  | OWithdraw _ _ => "withdraw_surplus" | OCreate _ => "create"
   end.
 
 (* how much the backing deficit may grow in one operation: only rounding (Dec.Quo rounds half
@@ -170,6 +179,18 @@ Definition op_clauses (lg : logs) (o : op) (pre p : post) : list string :=
           && (in_period (l_s lg) now (b_period b) + zsum (map (pair_value b) ps) <=? b_smax b)) "limits" k ++
       cl (caps_ok b') "caps" k
   | ODisable _ allowed => cl allowed "gate" k
+  | OWithdraw ids target =>
+      (* the receiver gets at most the recorded surplus of the DISTINCT baskets listed, and only
+         surplus records change (reserves, amounts and supplies stay) *)
+      let listed := filter (fun ib => existsb (Z.eqb (fst ib)) ids)
+                           (combine (map Z.of_nat (seq 1 (List.length (all_baskets pre)))) (all_baskets pre)) in
+      cl (forallb (fun d => delta pre p target d <=? zsum (map (fun ib => rec_surplus (snd ib) d) listed)) (denoms_of pre)
+          && list_eqb (fun x y => (b_amount x =? b_amount y) && list_eqb token_eqb (b_tokens x) (b_tokens y)) (all_baskets pre) (all_baskets p)
+          && (p_supply p =? p_supply pre)) "surplus_paid_once" k
+  | OCreate new =>
+      cl (list_eqb basket_eqb (firstn (List.length (all_baskets pre)) (all_baskets p)) (all_baskets pre)
+          && forallb (fun b => forallb (fun t => t_amount t =? 0) (b_tokens b) && match b_surplus b with [] => true | _ => false end)
+                     (skipn (List.length (all_baskets pre)) (all_baskets p))) "create_empty" k
   | _ => []
   end.
 
